@@ -17,7 +17,9 @@ MODELLED = ["PairingToZ1d.__init__ dispatch, PairingToZd glue, PepisKalmar recur
             "functools.cache/lru_cache: modelled as identity on pure functions"]
 ASSUMPTIONS = ["Python int is unbounded (Z); math.isqrt is the integer square root (Z.sqrt)"]
 THEOREM_NOTES = {
-    "C14_rs_nd": "not yet a theorem: d-dimensional Rosenberg-Strong is tied by correspondence + oracle only",
+    "C14_rs_nd_*": "d-dimensional Rosenberg-Strong: both directions for every dimension d >= 1; iroot is the exact integer root (the repaired code corrects its float guess to it; C14_iroot_unique)",
+    "C14_sm_*": "StatesManager.project_index_to_state_increment as a state machine: over increasing indices without reset it returns exactly the in-grid indices <= max frontier, each once, then exhaustion for ever; the random frontier draw on exhaustion is not modelled",
+    "C14_sm_reset": "histories with x == max_logged (reset) are covered by the vm_compute correspondence only",
     "C14_pepis_kalmar_*": "pk_pairing2d is generated from the source; pk_projection2d (recursive _aux_k/_aux_j) is the hand model of Model/Pairing.v, tied by correspondence",
 }
 
@@ -207,11 +209,14 @@ def correspond(res):
         if hp.pairing2d(x, y) != z or x < 0 or y < 0:
             viol("HyperbolicPairing: pairing2d(projection2d(z)) != z", kind="hyp", z=z, got=[x, y])
 
-    # StatesManager over increasing indices (1-d and 2-d grids)
+    # StatesManager over increasing indices (1-d, 2-d, 3-d grids; centred or not) and as a state machine
     _states_manager(res, rng, viol)
+    _states_manager_machine(res, rng, groups)
 
     # ---------- Coq side: the model must compute exactly what the implementation returned -----
-    header = "From Coq Require Import ZArith List Bool.\nFrom RV Require Import Gen.GenPairing Model.Pairing.\nOpen Scope Z_scope."
+    header = ("From Coq Require Import ZArith List Bool.\nFrom RV Require Import Gen.GenPairing Model.Pairing Model.StatesManager.\nOpen Scope Z_scope.\n"
+              "Fixpoint sm_lasts (o : Z -> bool) (maxf last : Z) (cs : list (Z*Z)) : list Z := match cs with nil => nil | c :: r => "
+              "let s := sm_step Z (fun i => i) o maxf last (fst c) (snd c) in snd s :: sm_lasts o maxf (snd s) r end.")
     res.case_lemmas += len(groups)
     bad = coq_bad_indices(PROP, "cases", header, groups, timeout=900)
     for g, ty, chk, cases in groups:
@@ -221,10 +226,22 @@ def correspond(res):
             res.case_ok += 1
 
 
+def _enumerate(sm, limit=200000):
+    got, x = [], 0
+    while x < limit:
+        s, done = sm.project_index_to_state_increment(x)
+        if done:
+            break
+        got.append(tuple(int(v) for v in s) if hasattr(s, "__len__") else int(s))
+        x += 1
+    return got
+
+
 def _states_manager(res, rng, viol):
     import numpy as np
     from rpylib.distribution import pairing as P
     from rpylib.grid.spatial import CTMCGrid
+    # 1-d: every interval shape
     shapes = [(rng.randrange(1, 8), rng.randrange(1, 8)) for _ in range(25)] + [(1, 1), (1, 5), (5, 1), (3, 3)]
     for (L, R) in shapes:
         axis = np.array([float(k) for k in range(-L, R + 1)])
@@ -232,39 +249,82 @@ def _states_manager(res, rng, viol):
         pairing = P.PairingToZ1d((-L, R), omit_zero=True)
         dom = P.Domain(boundary=P.Boundary(), grid=grid, pairing=pairing)
         sm = P.StatesManager(pairing=pairing, domain=dom, grid=grid)
-        got, x = [], 0
-        while x < 10 * (L + R) + 10:
-            s, done = sm.project_index_to_state_increment(x)
-            if done:
-                break
-            got.append(int(s))
-            x += 1
+        got = _enumerate(sm, 10 * (L + R) + 10)
         res.count(("sm1d", L, R), kind="StatesManager 1d")
         want = set(range(-L, R + 1)) - {0}
         if sorted(got) != sorted(want):
             viol("StatesManager(1-d) does not return every in-grid non-origin state exactly once before exhaustion",
-                 kind="sm", finding="F-C14-SM", L=L, R=R, got=got, missing=sorted(want - set(got)))
-    for (n0, n1) in [(3, 3), (5, 5), (3, 5), (5, 3), (7, 3)]:
-        axes = [np.array([float(k) for k in range(-(n // 2), n // 2 + 1)]) for n in (n0, n1)]
-        if n0 != n1:
-            continue  # CTMCGrid supports one origin index for all axes: only equal sizes are constructible centred
-        grid = CTMCGrid(h=1.0, origin_coordinate=n0 // 2, axes=axes)
-        pairing = P.PairingToZd(pairing=P.Szudzik(), dimension=2)
-        dom = P.Domain(boundary=P.Boundary(), grid=grid, pairing=pairing)
-        sm = P.StatesManager(pairing=pairing, domain=dom, grid=grid)
-        got, x = [], 0
-        while x < 100000:
-            s, done = sm.project_index_to_state_increment(x)
-            if done:
-                break
-            got.append(tuple(int(v) for v in s))
-            x = sm._last_projected_index + 1
-        res.count(("sm2d", n0, n1), kind="StatesManager 2d")
-        h = n0 // 2
-        want = {(a, b) for a in range(-h, h + 1) for b in range(-h, h + 1)} - {(0, 0)}
-        if sorted(got) != sorted(want):
-            viol("StatesManager(2-d) does not return every in-grid non-origin state exactly once before exhaustion",
-                 kind="sm", finding="F-C14-SM", n=[n0, n1], got=[list(g) for g in got], missing=[list(m) for m in sorted(want - set(got))])
+                 kind="sm", L=L, R=R, got=got, missing=sorted(want - set(got)))
+    # n-d: centred / off-centre origin, equal / unequal axis lengths, both pairings the factory can choose
+    grids = [(2, [5, 5], 2), (2, [7, 7], 3), (2, [7, 7], 4), (2, [7, 7], 1), (2, [5, 9], 2), (2, [9, 5], 2), (2, [4, 6], 1),
+             (3, [3, 3, 3], 1), (3, [5, 5, 5], 2), (3, [4, 3, 5], 1), (3, [5, 5, 5], 1)]
+    for dim, sizes, o in grids:
+        for pname in ("szudzik", "rs"):
+            if pname == "szudzik" and dim != 2:
+                continue
+            axes = [np.array([float(k) for k in range(-o, n - o)]) for n in sizes]
+            grid = CTMCGrid(h=1.0, origin_coordinate=o, axes=axes)
+            pairing = P.PairingToZd(pairing=P.Szudzik() if pname == "szudzik" else P.RosenbergStrong(), dimension=dim)
+            dom = P.Domain(boundary=P.Boundary(), grid=grid, pairing=pairing)
+            sm = P.StatesManager(pairing=pairing, domain=dom, grid=grid)
+            got = _enumerate(sm)
+            res.count(("smnd", dim, tuple(sizes), o, pname), kind=f"StatesManager {dim}d {pname}")
+            import itertools as it
+            want = set(it.product(*[range(-o, n - o) for n in sizes])) - {tuple([0] * dim)}
+            if sorted(got) != sorted(want):
+                dup = len(got) != len(set(got))
+                miss = sorted(want - set(got))
+                payload = dict(kind="sm", dim=dim, sizes=sizes, origin=o, pairing=pname, n_returned=len(got), n_expected=len(want),
+                               duplicates=dup, missing=[list(m) for m in miss[:12]], extra=[list(m) for m in sorted(set(got) - want)[:12]])
+                if pname == "rs" and not dup and not (set(got) - want):
+                    # known: max(frontier indices) is not the largest in-grid index for the Rosenberg-Strong order
+                    payload["finding"] = "F-C14-5"
+                viol(f"StatesManager({dim}-d, {pname}) does not return every in-grid non-origin state exactly once before exhaustion", **payload)
+
+
+def _states_manager_machine(res, rng, groups):
+    """the method itself as a state machine: random call histories (resets via max_logged, repeats, indices above the
+    frontier) on a StatesManager whose enumeration/outside predicate are scripted; compared call by call with Model/StatesManager.v"""
+    from rpylib.distribution.pairing import StatesManager
+    cases = []
+    for t in range(120 if res.tier == "quick" else 1500):
+        maxf = rng.randint(-1, 14)
+        outs = sorted({i for i in range(0, 20) if rng.random() < rng.choice([0.2, 0.6, 0.9])})
+        sm = object.__new__(StatesManager)
+        sm.max_frontier_indices = maxf
+        sm._last_projected_index = -1
+
+        class _P:
+            @staticmethod
+            def project(i):
+                return i
+        sm.pairing = _P
+        sm.is_outside = lambda s, outs=outs: s in outs
+        sm._sample_frontier_state_increment = lambda: None
+        calls, rets, lasts = [], [], []
+        x = 0
+        for k in range(rng.randint(1, 25)):
+            if rng.random() < 0.6:
+                xx = x
+                x += 1
+            else:
+                xx = rng.randint(0, 18)
+            ml = xx if rng.random() < 0.15 else rng.choice([-1, 1000, xx + 1])
+            st, brk = sm.project_index_to_state_increment(xx, ml)
+            calls.append((xx, ml))
+            rets.append(None if brk else int(st))
+            lasts.append(int(sm._last_projected_index))
+        res.count(("smm", maxf, tuple(outs), tuple(calls)), kind="StatesManager state machine")
+        res.bump("sm_history_len", len(calls) // 5 * 5)
+        cases.append((maxf, outs, calls, rets, lasts))
+    lits = []
+    for maxf, outs, calls, rets, lasts in cases:
+        lits.append("(" + ", ".join([zlit(maxf), lst([zlit(i) for i in outs]), lst([f"({zlit(a)}, {zlit(b)})" for a, b in calls]),
+                                     lst(["None" if r is None else f"(Some {zlit(r)})" for r in rets]), lst([zlit(l) for l in lasts])]) + ")")
+    groups.append(("smm", "Z * list Z * list (Z * Z) * list (option Z) * list Z",
+                   "fun c => match c with (maxf, outs, calls, rets, lasts) => "
+                   "list_eqb (option_eqb Z.eqb) (sm_run_index Z (fun i => i) (fun i => existsb (Z.eqb i) outs) maxf (-1) calls) rets "
+                   "&& zlist_eqb (sm_lasts (fun i => existsb (Z.eqb i) outs) maxf (-1) calls) lasts end", lits))
 
 
 def replay(path):
